@@ -449,6 +449,10 @@ def rule_whole_buf(ctx, cfg, F):
                     if st["s"] == "assign" and st["lhs"]["l"] == 0 and st["rv"]["r"] == "agg" and st["rv"]["kind"].get("variant") == "Ok":
                         rs = tr.roots_of_operand(st["rv"]["a"][0])
                         oks.append(all(r.kind == "call" and "::OsIpcReceiver::" in r.id and r.field_idx()[-1:] == (0,) for r in rs) and bool(rs))
+            if not oks:
+                # the result is produced by a combinator call (`.map(..).map_err(..)`): look at the Ok payload of the return place
+                rs = tr.roots(0, (("v", 0, "Ok"), ("f", 0, "0")))
+                oks.append(all(r.kind == "call" and "::OsIpcReceiver::" in r.id and r.field_idx()[-1:] == (0,) for r in rs) and bool(rs))
             if oks and all(oks):
                 R.ok("%s returns field 0 of the platform result unchanged" % base, f.loc(0), cfg)
             else:
